@@ -467,11 +467,15 @@ package lua
 
 //@ func coResume [C06]
 //@ requires Inv_gfn(L) && isTh(arg(L, 1)) && th(arg(L, 1)) != nil && L.G.CurrentThread != nil && th(arg(L, 1)).G == L.G
+// the coroutine is a different state with its own registry (representation facts of NewThread, assumed)
+//@ requires Inv_api(th(arg(L, 1))) && (th(arg(L, 1)) != L ==> th(arg(L, 1)).reg != L.reg && arrid(th(arg(L, 1)).reg.array) != arrid(L.reg.array) && th(arg(L, 1)).currentFrame != L.currentFrame)
 //@ assert@"th.Parent = L" !th.Dead && L.G.CurrentThread != th && !ancestor(L.G.CurrentThread, th)
-//@ cut@"if !th.isStarted() {" the argument transfer of a legitimate resume is covered by XMoveTo/initCallFrame; only the guards are decided here
+//@ cut@"cf := th.stack.Last()" the FIRST resume of a coroutine (frame set-up through initCallFrame) is not verified here; its pieces are (XMoveTo, initCallFrame)
+// a legitimate resume makes the resumer the coroutine's Parent and the coroutine the current thread BEFORE it runs
+//@ assert@"threadRun(th)" th.Parent == L && L.G.CurrentThread == th
 //@ ensures  "never-resumed": old(th(arg(L, 1)).Dead || L.G.CurrentThread == th(arg(L, 1)) || ancestor(L.G.CurrentThread, th(arg(L, 1)))) ==> ncalls() == old(ncalls()) && result == 2 && top(L) == old(top(L)) + 2 && pushed(L, 0) == LFalse && isStr(pushed(L, 1))
 //@ ensures  old(th(arg(L, 1)).Dead || L.G.CurrentThread == th(arg(L, 1)) || ancestor(L.G.CurrentThread, th(arg(L, 1)))) ==> L.G.CurrentThread == old(L.G.CurrentThread) && th(old(arg(L, 1))).Parent == old(th(arg(L, 1)).Parent)
-//@ raises when th(arg(L, 1)).wrapped || top(L) + 2 > cap(L.reg.array)
+//@ raises when th(arg(L, 1)).wrapped || top(L) + 2 > cap(L.reg.array) || !(th(arg(L, 1)).Dead || L.G.CurrentThread == th(arg(L, 1)) || ancestor(L.G.CurrentThread, th(arg(L, 1))))
 //@ modifies everything
 
 // ---------------------------------------------------------------------------
